@@ -12,14 +12,15 @@ EXTENDS C15_EventBus, Json, Integers
 TraceLog == ndJsonDeserialize("trace.ndjson")
 
 \* fixed universe used by the harness (harness/p2p/host/eventbus/zz_verif_c15_test.go)
-TrTypes == {"A", "B"}
-TrStateful == {"A"}
-TrEmitters == {"e1", "e2", "e3"}
-TrETyp == ("e1" :> "A") @@ ("e2" :> "A") @@ ("e3" :> "B")
+TrTypes == {"A", "B", "C"}
+TrStateful == {"A", "C"}
+TrEmitters == {"e1", "e2", "e3", "e4"}
+TrETyp == ("e1" :> "A") @@ ("e2" :> "A") @@ ("e3" :> "B") @@ ("e4" :> "C")
 TrNEv == [e \in TrEmitters |-> 1000000]
-TrSubs == {"s1", "s2", "s3", "s4", "s5", "s6", "s7", "s8"}
+TrSubs == {"s1", "s2", "s3", "s4", "s5", "s6", "s7", "s8", "s9", "s10", "s11", "s12"}
 TrSTyps == ("s1" :> <<"A">>) @@ ("s2" :> <<"A">>) @@ ("s3" :> <<"A", "B">>) @@ ("s4" :> <<"B">>) @@
-           ("s5" :> <<"A">>) @@ ("s6" :> <<"B", "A">>) @@ ("s7" :> <<"A">>) @@ ("s8" :> <<"A", "B">>)
+           ("s5" :> <<"A">>) @@ ("s6" :> <<"B", "A">>) @@ ("s7" :> <<"A">>) @@ ("s8" :> <<"A", "B">>) @@
+           ("s9" :> <<"A", "C">>) @@ ("s10" :> <<"C", "A">>) @@ ("s11" :> <<"C">>) @@ ("s12" :> <<"B", "C">>)
 TrWSubs == {"w1", "w2", "w3"}
 TrCap == [s \in TrSubs \cup TrWSubs |-> 0]
 
